@@ -60,6 +60,7 @@ type Interp struct {
 	termNames map[string]string
 	spPending bool
 	spTrace   []int
+	selTrace  [][2]int // (position in spTrace of a select's "before" scheduling point, chosen case) for selects of instrumented code that had several ready cases
 	nextNid   int
 	pcLits map[string]bool // literal text of the asserted path constraints (branch shortcut)
 	P       *Program
